@@ -91,6 +91,18 @@ func (c *ChunkIterators) Less(i, j int) bool {
 		return iID < jID
 	}
 
+	// Chunks of one series: the older file (lower sequence, then lower extent) comes first, so that the rows of a
+	// newer file are appended later and win on equal timestamps. For ordered files this is also their time order;
+	// for out-of-order files (merge-self) the minimum time alone says nothing about which file is newer.
+	_, si := c.itrs[i].r.LevelAndSequence()
+	_, sj := c.itrs[j].r.LevelAndSequence()
+	if si != sj {
+		return si < sj
+	}
+	if ei, ej := c.itrs[i].r.FileNameExtend(), c.itrs[j].r.FileNameExtend(); ei != ej {
+		return ei < ej
+	}
+
 	return c.itrs[i].merge.MinTime(true) < c.itrs[j].merge.MinTime(true)
 }
 
